@@ -120,6 +120,9 @@ func intrinsicTable() map[string]intrinsic {
 	}
 	t[p+"vassume"] = func(w *Worker, fn *ssa.Function, a []Value) Value {
 		c := a[0].(*Term)
+		if w.mergeLvl > 0 {
+			w.abort("mergefail", "assume in merge arm")
+		}
 		if w.replaying() {
 			if !c.IsConst() {
 				w.pc = append(w.pc, c)
@@ -136,6 +139,9 @@ func intrinsicTable() map[string]intrinsic {
 		return nil
 	}
 	t[p+"vreach"] = func(w *Worker, fn *ssa.Function, a []Value) Value {
+		if w.mergeLvl > 0 {
+			w.abort("mergefail", "reach in merge arm")
+		}
 		w.pathReach = append(w.pathReach, a[0].(string))
 		return nil
 	}
@@ -149,6 +155,9 @@ func intrinsicTable() map[string]intrinsic {
 	t[p+"vassertK"] = func(w *Worker, fn *ssa.Function, a []Value) Value {
 		id, kid := a[0].(string), a[1].(string)
 		region, ok := a[2].(*Term), a[3].(*Term)
+		if w.mergeLvl > 0 {
+			w.abort("mergefail", "assert in merge arm")
+		}
 		if !w.eng.cfg.KnownOpen[kid] {
 			w.assertion(id, ok)
 			return nil
